@@ -181,7 +181,7 @@ def tlc_generate(run, module, consts, invariant='Emit', timeout=300, label='gen'
     with open(cfg, 'w') as f:
         f.write('SPECIFICATION Spec\nCONSTANTS\n')
         for k, v in consts.items():
-            f.write('  %s = %s\n' % (k, json.dumps(v) if isinstance(v, str) else v))
+            f.write('  %s = %s\n' % (k, ('TRUE' if v else 'FALSE') if isinstance(v, bool) else json.dumps(v) if isinstance(v, str) else v))
         f.write('INVARIANT %s\nCHECK_DEADLOCK FALSE\n' % invariant)
     metadir = os.path.join(run.work, 'gmeta-%d' % len(run.phases))
     cmd = _tlc_cmd(module + '.tla', cfg, metadir, 1, xss='64m', xmx='4g')
